@@ -40,6 +40,9 @@ REG.contract('C08', O, 'OptionStore.set_from_configure_command', variant='unset-
                  'forall(Obj, lambda k: implies(k is not key, (k in new(self).augments) == (k in self.augments)))',
                  # -U of an option itself: it yields again iff it has a parent
                  f"implies(key not in self.augments, len({SA}) == 1 and {SA}[0][2] == 'yielding' and {SA}[0][1] is self.options[key])",
+                 # ... and the store is reported dirty exactly when that changed something: the option did not yield before and has a
+                 # parent to yield to (the flag is computed from the state BEFORE the assignment)
+                 "implies(key not in self.augments and key in self.options, final('dirty') == (dirty or (not attr_yielding(self.options[key]) and truthy(attr_parent(self.options[key])))))",
              ],
              raises={'MesonException': 'key not in self.augments and key not in self.options'},
              opaque_attrs={'yielding': Bool, 'parent': Opt(Obj)}, modifies=['self.augments'], floor=6,
